@@ -46,6 +46,8 @@ pub struct Shared {
     pub kept: Vec<File>,
     pub backend: Option<Backend>,
     pub gpu: Option<GpuBackend>,
+    /// identity of the file the handler returned last (for `same open file` checks on the frontend side)
+    pub last_returned: Option<Ino>,
 }
 
 #[derive(Clone)]
@@ -81,9 +83,11 @@ impl Rec {
     fn herr<T>() -> Result<T> {
         Err(Error::ReqHandlerError(std::io::Error::from_raw_os_error(libc::EIO)))
     }
-    fn fresh_file() -> File {
+    fn fresh_file(&self) -> File {
         use std::os::unix::io::FromRawFd;
-        unsafe { File::from_raw_fd(new_memfd(0)) }
+        let fd = new_memfd(0);
+        self.sh.lock().unwrap().last_returned = ino_of(fd);
+        unsafe { File::from_raw_fd(fd) }
     }
 }
 
@@ -188,7 +192,7 @@ impl VhostUserBackendReqHandlerMut for Rec {
         sh.calls.push(format!("get_shared_object:{:x}:-:-", u));
         let h = sh.next.clone();
         drop(sh);
-        if h.ok { Ok(Self::fresh_file()) } else { Self::herr() }
+        if h.ok { Ok(self.fresh_file()) } else { Self::herr() }
     }
     fn get_inflight_fd(&mut self, inflight: &VhostUserInflight) -> Result<(VhostUserInflight, File)> {
         let h = self.log("get_inflight_fd", &[inflight.mmap_size, inflight.mmap_offset, inflight.num_queues as u64,
@@ -196,7 +200,7 @@ impl VhostUserBackendReqHandlerMut for Rec {
         if h.ok {
             let mut r = *inflight;
             r.mmap_size = h.v;
-            Ok((r, Self::fresh_file()))
+            Ok((r, self.fresh_file()))
         } else {
             Self::herr()
         }
@@ -229,7 +233,7 @@ impl VhostUserBackendReqHandlerMut for Rec {
         if !h.ok {
             Self::herr()
         } else if h.file {
-            Ok(Some(Self::fresh_file()))
+            Ok(Some(self.fresh_file()))
         } else {
             Ok(None)
         }
@@ -254,7 +258,7 @@ impl VhostUserBackendReqHandlerMut for Rec {
     }
     fn postcopy_advice(&mut self) -> Result<File> {
         let h = self.log("postcopy_advice", &[], &[], &[]);
-        if h.ok { Ok(Self::fresh_file()) } else { Self::herr() }
+        if h.ok { Ok(self.fresh_file()) } else { Self::herr() }
     }
     fn postcopy_listen(&mut self) -> Result<()> {
         let h = self.log("postcopy_listen", &[], &[], &[]);
